@@ -221,12 +221,13 @@ pub fn gen_vector(rng: &mut Rng, id: String, fam: &str, cont: &str, n: usize, pr
         1..=3 => cmds.push(json!(["settle_all"])),
         _ => cmds.push(json!(["settle"])),
     }
-    // after the final result: stale wakes and one more poll (must not reach any child)
-    if !group && rng.chance(25) {
-        if n > 0 && rng.chance(50) {
-            cmds.push(json!(["fire", rng.below(n as u64), -1]));
+    // after the final result: stale wakes (nobody polls again: a poll after the final result is
+    // the caller's contract violation and nothing is concluded from it, DESIGN.md 9)
+    if !group && n > 0 && rng.chance(25) {
+        cmds.push(json!(["fire", rng.below(n as u64), -1]));
+        if rng.chance(30) {
+            cmds.push(json!(["fire", rng.below(n as u64), 0]));
         }
-        cmds.push(json!(["repoll"]));
     }
     Vector {
         id,
